@@ -27,6 +27,30 @@ def d16_key(case, f):
     return 'D16-rescaling-accuracy-two-deme-size-jump' if abs(x - y) <= 1e-8 * abs(x) else None
 
 
+# known finding D18: a 4096-fold size increase shortly after time 0 (all sizes within [1e-3, 1e9], no warning logged): the raw third
+# moments (and the variances of the spectrum) lose accuracy (5e-5 .. 1e-4 relative against a 40-digit reference)
+D18_SPEC = {'n_items': [['a', 3]], 'model': {'kind': 'kingman'}, 'pop_sizes': {'a': {'0.0': 128.0, '1.5': 524288.0}}}
+
+
+def d18_key(case, f):
+    if gen.spec_key(case['spec']) != gen.spec_key(D18_SPEC):
+        return None
+    if f['what'] == 'moment of order 3 does not scale by c^3':
+        x, y = f['expected'], f['rescaled']
+        ok = abs(x - y) <= 1e-3 * abs(x)
+    elif f['what'] == 'variances of the spectrum do not scale by c^2':
+        import numpy as np
+        x, y = np.array(f['original'], dtype=float) * f['c'] ** 2, np.array(f['rescaled'], dtype=float)
+        ok = bool(np.all(np.abs(x - y) <= 1e-6 * np.maximum(np.abs(x), 1e-300)))
+    else:
+        return None
+    return 'D18-third-moment-accuracy-4096-fold-size-increase' if ok else None
+
+
+def known_key(case, f):
+    return d16_key(case, f) or d18_key(case, f)
+
+
 def run(res, replay=None):
     # structural tie of the searches on the distribution function (_update, _cum, quantile, _get_absorption_time, t_max): translate the CURRENT source and re-check proofs/GenSearchEquiv.v
     import translate_step; (res.proof is not None) and translate_step.run(res.proof, pid=res.pid, tie='search')
@@ -103,7 +127,8 @@ def run(res, replay=None):
     # 2^15-fold size increase: the law holds to about 4e-9 only); identified by this exact configuration and statistic
     if not replay:
         cases.append({'spec': D16_SPEC, 'c': 4.0, 'regularize_check': False})
-    results = orc.run_oracle(res, 'scaling', cases, finding_key=d16_key)
+        cases.append({'spec': D18_SPEC, 'c': 32.0, 'regularize_check': False})
+    results = orc.run_oracle(res, 'scaling', cases, finding_key=known_key)
     res.extra['input_distribution'] = {
         'c': sorted({c['c'] for c in cases}),
         'skipped_because_warning': sum(1 for _, r in results if isinstance(r.get('info'), dict) and 'skipped' in r['info']),
